@@ -65,7 +65,7 @@ func (mem *Memory) Get(key string) (*rspb.Release, error) {
 	defer unlock(mem.rlock())
 
 	keyWithoutPrefix := strings.TrimPrefix(key, "sh.helm.release.v1.")
-	switch elems := strings.Split(keyWithoutPrefix, ".v"); len(elems) {
+	switch elems := splitKey(keyWithoutPrefix); len(elems) {
 	case 2:
 		name, ver := elems[0], elems[1]
 		if _, err := strconv.Atoi(ver); err != nil {
@@ -200,7 +200,7 @@ func (mem *Memory) Delete(key string) (*rspb.Release, error) {
 	defer unlock(mem.wlock())
 
 	keyWithoutPrefix := strings.TrimPrefix(key, "sh.helm.release.v1.")
-	elems := strings.Split(keyWithoutPrefix, ".v")
+	elems := splitKey(keyWithoutPrefix)
 
 	if len(elems) != 2 {
 		return nil, ErrInvalidKey
@@ -238,3 +238,13 @@ func (mem *Memory) rlock() func() {
 // ```defer unlock(mem.rlock())```, locks mem for reading at the
 // call point of defer and unlocks upon exiting the block.
 func unlock(fn func()) { fn() }
+
+// splitKey splits "<name>.v<version>" at the last ".v", so that release names
+// which themselves contain ".v" are handled.
+func splitKey(key string) []string {
+	i := strings.LastIndex(key, ".v")
+	if i < 0 {
+		return []string{key}
+	}
+	return []string{key[:i], key[i+2:]}
+}
